@@ -30,7 +30,7 @@ PROPS = {
         "assumptions": COMMON_ASSUME,
     },
     "C04": {
-        "rules": ["R-NOTFOUND", "R-WINDOW", "R-ALPHAGUARD"],
+        "rules": ["R-NOTFOUND", "R-WINDOW", "R-ALPHAGUARD", "R-BUCKET", "R-FMMAP"],
         "explanation": "The structural half of prefix search: the not-found protocol of the in-bucket search helpers (all five front-coding kinds), "
                        "agreement between the located ID range and the window handed to the string iterator under that iterator class's own "
                        "first/end protocol (symbolic count = right-left+1, incl. the empty range), alphabet guard for absent bytes.",
@@ -51,14 +51,16 @@ PROPS = {
         "assumptions": COMMON_ASSUME,
     },
     "C01": {
-        "rules": ["R-STATE", "R-INITCOVER", "R-MIRROR", "R-IDGUARD", "R-SELECTRANGE"],
+        "rules": ["R-STATE", "R-INITCOVER", "R-MIRROR", "R-IDGUARD", "R-SELECTRANGE", "R-PROBE", "R-BUCKET", "R-FMMAP"],
         "explanation": "The clause `for the freshly built object and the reloaded one alike` is decided structurally: for every kind and both "
                        "creation paths, every field read by a query on an object of a class that path instantiates (rapid type analysis, virtual "
                        "calls resolved to final overriders of instantiated classes) is assigned by code reachable from that creation path, pointer "
                        "fields are not left NULL where operations dereference them unconditionally, and byte-indexed tables are filled over their "
                        "whole extent. Image/loader agreement (R-MIRROR) carries the state across save/load.",
         "decided": ["built/loaded state parity for all 13 kinds x 2 creation paths (R-STATE)", "full initialisation of byte-indexed tables (R-INITCOVER)",
-                    "image carries every field load needs (R-MIRROR)", "extract range guard (R-IDGUARD)"],
+                    "image carries every field load needs (R-MIRROR)", "extract range guard (R-IDGUARD)",
+                    "insert and lookup walk the same probe sequence in all 8 double-hashing walks (R-PROBE)",
+                    "ID <-> (bucket, offset) arithmetic is an inverse pair in all five front-coding kinds (R-BUCKET)", "FM-index row <-> ID mapping agrees at all five sites (R-FMMAP)"],
         "not_decided": ["that decoding inverts encoding for every string (Hu-Tucker, Huffman, Re-Pair, DAC, rank/select values)", "binary-search correctness",
                         "HHTFC / RPHTFC mis-decode small inputs even when reloaded (seen by triage probes replays/t_roundtrip.cpp; value-level, outside every rule)"],
         "assumptions": COMMON_ASSUME,
@@ -78,7 +80,7 @@ PROPS = {
         "assumptions": COMMON_ASSUME,
     },
     "C12": {
-        "rules": ["R-CLAMP", "R-PARAMFLOW", "R-DISPATCH"],
+        "rules": ["R-CLAMP", "R-PARAMFLOW", "R-DISPATCH", "R-PROBE", "R-BUCKET"],
         "explanation": "The last sentence of the property (bucket size below 2 is replaced by 2) is decided by def-use on the five front-coding constructors; "
                        "thread_count and cut_size are shown to flow only into the pool size / the cut decision; every accepted hash load option has a loader.",
         "decided": ["raw bucket size never used after the clamp (R-CLAMP)", "thread_count -> pool only, cut_size -> cut decision and header only (R-PARAMFLOW)",
@@ -103,6 +105,16 @@ PROPS = {
         "decided": ["no shift by >= operand width for any width 1..64 and offset, incl. fields straddling a word (R-SHIFT)",
                     "LogSequence / DAC_VLS / DAC_BVLS survive save/load structurally (R-MIRROR, R-EXTENT)", "packed arrays are filled before set_field/bitset (R-ZEROFILL)"],
         "not_decided": ["round trip of values, DAC level layout, VByte codec value round trip (value-level)"],
+        "assumptions": COMMON_ASSUME,
+    },
+    "C03": {
+        "rules": ["R-BUCKET", "R-FMMAP", "R-NOSORT"],
+        "explanation": "Order preservation decided structurally: rank operations are the identity / delegate to extract in the seven order-preserving "
+                       "kinds, ID arithmetic is consistent with consuming the input in order, FM-index row mapping agrees, and no builder of an "
+                       "order-preserving kind reorders its input (no sort reachable on their build paths).",
+        "decided": ["locateRank is the identity and extractRank delegates to extract (R-BUCKET rank part)", "bucket arithmetic (R-BUCKET)",
+                    "FM-index row <-> ID mapping (R-FMMAP)", "no sort on the build path of order-preserving kinds (R-NOSORT)"],
+        "not_decided": ["the alphabetic property of Hu-Tucker codes (memcmp on encoded headers = string order) and suffix-array order (value-level)"],
         "assumptions": COMMON_ASSUME,
     },
     "C13": {
